@@ -5,7 +5,7 @@ C04: the two statements of the documented Rust → Arrow mapping agree.
 `Trace.Spec.mapping` (SaModel/Trace/Mapping.lean, what C08 proves `from_type` to be) is an `R Field` with the
 documented refusals (null-only fields, data-less enums, overwrites); `Roundtrip.mappingDT` (SaModel/Roundtrip/Types.lean,
 what C04's `interp_ser` / `cast_lv` are about) is a total function of the type.  Whenever the former succeeds, without
-overwrites, on the translation of an enum-free type, it is the latter:
+overwrites, on the translation of ANY type (enums included), it is the latter:
 
   mapping_eq       Spec.mapping O name path nl (toTraceTy t) = ok f → f = ⟨name, dt, nl || nb, md⟩, (dt, nb, md) = mappingDT (viewOpts O) t
   fromTypeSpec_eq  Spec.fromTypeSpec O (toTraceTy t) = ok fields → mappingRoot (viewOpts O) t = some fields
@@ -44,121 +44,218 @@ theorem strDT_view (O : Options) : strDT (viewOpts O) = O.string_type := rfl
 theorem view_large (O : Options) : (viewOpts O).sequenceAsLargeList = O.sequence_as_large_list := rfl
 theorem view_dict (O : Options) : (viewOpts O).stringDictionaryEncoding = O.string_dictionary_encoding := rfl
 
+theorem view_enumStr (O : Options) : (viewOpts O).enumsWithoutDataAsStrings = O.enums_without_data_as_strings := rfl
+theorem view_allowNull (O : Options) : (viewOpts O).allowNullFields = O.allow_null_fields := rfl
+
+/-- "carries no data" is the same predicate on both descriptions of the type -/
+theorem isNullTy_trace : ∀ (t : Ty), Spec.isNullTy (toTraceTy t) = isNullTy t
+  | .prim p => by cases p <;> rfl
+  | .unit => rfl
+  | .unitStruct _ => rfl
+  | .option t => by simp only [toTraceTy, Spec.isNullTy, isNullTy]; exact isNullTy_trace t
+  | .newtype _ t => by simp only [toTraceTy, Spec.isNullTy, isNullTy]; exact isNullTy_trace t
+  | .vec _ => rfl
+  | .tuple _ => rfl
+  | .tupleStruct _ _ => rfl
+  | .struct _ _ => rfl
+  | .enum _ _ => rfl
+  | .map _ _ => rfl
+
+/-- "enum without data" is the same predicate on both descriptions of the type -/
+theorem withoutData_trace : ∀ (vars : Variants), Spec.withoutData (toTraceVariants vars) = vars.withoutData
+  | .nil => rfl
+  | .cons _ .unit r => by
+    simp only [toTraceVariants, Spec.withoutData, Variants.withoutData]; exact withoutData_trace r
+  | .cons _ (.newtype t) r => by
+    simp only [toTraceVariants, Spec.withoutData, Variants.withoutData, isNullTy_trace, withoutData_trace r]
+  | .cons _ (.tuple _) _ => rfl
+  | .cons _ (.struct _) _ => rfl
+
+/-- the guard `if i > 127 then fail …` of `Spec.mappingVariants`, passed -/
+theorem guard_ok {β} {i : Nat} {m : String} {k k' : R β} {b : β}
+    (h : (if i > 127 then ((fail m : R PUnit) >>= fun _ => k') else k) = .ok b) : i ≤ 127 ∧ k = .ok b := by
+  by_cases hi : i > 127
+  · rw [if_pos hi] at h; cases h
+  · rw [if_neg hi] at h; exact ⟨by omega, h⟩
+
 mutual
 theorem mapping_eq (O : Options) (h0 : O.overwrites = []) : ∀ (t : Ty) (name path : String) (nl : Bool) (f : Field)
     (dt : DataType) (nb : Bool) (md : Metadata),
-    noEnum t = true → Spec.mapping O name path nl (toTraceTy t) = .ok f → mappingDT (viewOpts O) t = (dt, nb, md) →
+    Spec.mapping O name path nl (toTraceTy t) = .ok f → mappingDT (viewOpts O) t = (dt, nb, md) →
     f = .mk name dt (nl || nb) md
-  | .prim p, name, path, nl, f, dt, nb, md, _, h, hm => by
+  | .prim p, name, path, nl, f, dt, nb, md, h, hm => by
     simp only [mappingDT, Prod.mk.injEq] at hm; obtain ⟨rfl, rfl, rfl⟩ := hm
     cases p <;>
       simp only [toTraceTy, primTraceTy, Spec.mapping, overwritten_none O h0, Except.ok.injEq] at h <;> subst h
     case str =>
       simp only [Spec.stringField, primDT, strDT_view, view_dict, Bool.or_false]
       split <;> simp [*]
-    case int t => rename_i t'; cases t' <;> simp [primDT, intDT, intDataType]
+    case int t => cases t <;> simp [primDT, intDT, intDataType]
     all_goals simp [primDT]
-  | .unit, name, path, nl, f, dt, nb, md, _, h, hm => by
+  | .unit, name, path, nl, f, dt, nb, md, h, hm => by
     simp only [mappingDT, Prod.mk.injEq] at hm; obtain ⟨rfl, rfl, rfl⟩ := hm
     simp only [toTraceTy, Spec.mapping, overwritten_none O h0, Spec.nullField] at h
     split at h
     · cases h; simp
     · cases h
-  | .unitStruct n, name, path, nl, f, dt, nb, md, _, h, hm => by
+  | .unitStruct n, name, path, nl, f, dt, nb, md, h, hm => by
     simp only [mappingDT, Prod.mk.injEq] at hm; obtain ⟨rfl, rfl, rfl⟩ := hm
     simp only [toTraceTy, Spec.mapping, overwritten_none O h0, Spec.nullField] at h
     split at h
     · cases h; simp
     · cases h
-  | .option t, name, path, nl, f, dt, nb, md, hn, h, hm => by
+  | .option t, name, path, nl, f, dt, nb, md, h, hm => by
     rcases hm' : mappingDT (viewOpts O) t with ⟨dt', nb', md'⟩
     simp only [mappingDT, hm', Prod.mk.injEq] at hm; obtain ⟨rfl, rfl, rfl⟩ := hm
     simp only [toTraceTy, Spec.mapping] at h
-    have ih := mapping_eq O h0 t name path true f _ _ _ (by simpa [noEnum] using hn) h hm'
+    have ih := mapping_eq O h0 t name path true f _ _ _ h hm'
     rw [ih]; simp
-  | .newtype n t, name, path, nl, f, dt, nb, md, hn, h, hm => by
+  | .newtype n t, name, path, nl, f, dt, nb, md, h, hm => by
     simp only [mappingDT] at hm
     simp only [toTraceTy, Spec.mapping] at h
-    exact mapping_eq O h0 t name path nl f _ _ _ (by simpa [noEnum] using hn) h hm
-  | .vec t, name, path, nl, f, dt, nb, md, hn, h, hm => by
+    exact mapping_eq O h0 t name path nl f _ _ _ h hm
+  | .vec t, name, path, nl, f, dt, nb, md, h, hm => by
     rcases hm' : mappingDT (viewOpts O) t with ⟨dt', nb', md'⟩
     simp only [mappingDT, hm', Prod.mk.injEq, view_large] at hm; obtain ⟨rfl, rfl, rfl⟩ := hm
     simp only [toTraceTy, Spec.mapping, overwritten_none O h0] at h
     obtain ⟨item, hi, h⟩ := bind_ok h
-    have ih := mapping_eq O h0 t _ _ false item _ _ _ (by simpa [noEnum] using hn) hi hm'
+    have ih := mapping_eq O h0 t _ _ false item _ _ _ hi hm'
     cases h
     rw [ih]
     simp
-  | .tuple ts, name, path, nl, f, dt, nb, md, hn, h, hm => by
+  | .tuple ts, name, path, nl, f, dt, nb, md, h, hm => by
     simp only [mappingDT, Prod.mk.injEq] at hm; obtain ⟨rfl, rfl, rfl⟩ := hm
     simp only [toTraceTy, Spec.mapping, overwritten_none O h0] at h
     obtain ⟨fs, hi, h⟩ := bind_ok h
-    have ih := mappingTys_eq O h0 ts path 0 fs (by simpa [noEnum] using hn) hi
+    have ih := mappingTys_eq O h0 ts path 0 fs hi
     cases h
     simp [ih, Spec.tupleMeta, TUPLE_MD]
-  | .tupleStruct n ts, name, path, nl, f, dt, nb, md, hn, h, hm => by
+  | .tupleStruct n ts, name, path, nl, f, dt, nb, md, h, hm => by
     simp only [mappingDT, Prod.mk.injEq] at hm; obtain ⟨rfl, rfl, rfl⟩ := hm
     simp only [toTraceTy, Spec.mapping, overwritten_none O h0] at h
     obtain ⟨fs, hi, h⟩ := bind_ok h
-    have ih := mappingTys_eq O h0 ts path 0 fs (by simpa [noEnum] using hn) hi
+    have ih := mappingTys_eq O h0 ts path 0 fs hi
     cases h
     simp [ih, Spec.tupleMeta, TUPLE_MD]
-  | .struct n fs, name, path, nl, f, dt, nb, md, hn, h, hm => by
+  | .struct n fs, name, path, nl, f, dt, nb, md, h, hm => by
     simp only [mappingDT, Prod.mk.injEq] at hm; obtain ⟨rfl, rfl, rfl⟩ := hm
     simp only [toTraceTy, Spec.mapping, overwritten_none O h0] at h
     obtain ⟨fl, hi, h⟩ := bind_ok h
-    have ih := mappingFields_eq O h0 fs path fl (by simpa [noEnum] using hn) hi
+    have ih := mappingFields_eq O h0 fs path fl hi
     cases h
     simp [ih]
-  | .map k v, name, path, nl, f, dt, nb, md, hn, h, hm => by
+  | .map k v, name, path, nl, f, dt, nb, md, h, hm => by
     rcases hk' : mappingDT (viewOpts O) k with ⟨kdt, knb, kmd⟩
     rcases hv' : mappingDT (viewOpts O) v with ⟨vdt, vnb, vmd⟩
     simp only [mappingDT, hk', hv', Prod.mk.injEq] at hm; obtain ⟨rfl, rfl, rfl⟩ := hm
-    simp only [noEnum, Bool.and_eq_true] at hn
     simp only [toTraceTy, Spec.mapping, overwritten_none O h0] at h
     obtain ⟨kf, hk, h⟩ := bind_ok h
     obtain ⟨vf, hv, h⟩ := bind_ok h
-    have ihk := mapping_eq O h0 k _ _ false kf _ _ _ hn.1 hk hk'
-    have ihv := mapping_eq O h0 v _ _ false vf _ _ _ hn.2 hv hv'
+    have ihk := mapping_eq O h0 k _ _ false kf _ _ _ hk hk'
+    have ihv := mapping_eq O h0 v _ _ false vf _ _ _ hv hv'
     cases h
     rw [ihk, ihv]
     simp [Fields.ofList]
-  | .enum n vs, _, _, _, _, _, _, _, hn, _, _ => by simp [noEnum] at hn
+  | .enum n vs, name, path, nl, f, dt, nb, md, h, hm => by
+    simp only [toTraceTy, Spec.mapping, overwritten_none O h0, withoutData_trace] at h
+    simp only [mappingDT] at hm
+    by_cases hc : (vs.withoutData && O.enums_without_data_as_strings) = true
+    · have hc' : (vs.withoutData && (viewOpts O).enumsWithoutDataAsStrings) = true := hc
+      rw [if_pos hc] at h; rw [if_pos hc'] at hm
+      simp only [Prod.mk.injEq] at hm; obtain ⟨rfl, rfl, rfl⟩ := hm
+      cases h
+      simp [strDT_view]
+    · have hc' : ¬ (vs.withoutData && (viewOpts O).enumsWithoutDataAsStrings) = true := hc
+      rw [if_neg hc] at h; rw [if_neg hc'] at hm
+      simp only [Prod.mk.injEq] at hm; obtain ⟨rfl, rfl, rfl⟩ := hm
+      split at h
+      · cases h
+      · obtain ⟨cs, hi, h⟩ := bind_ok h
+        have ih := mappingVariants_eq O h0 vs path 0 cs hi
+        cases h
+        simp [ih]
 theorem mappingTys_eq (O : Options) (h0 : O.overwrites = []) : ∀ (ts : Tys) (path : String) (i : Nat) (fs : List Field),
-    noEnumTys ts = true → Spec.mappingTys O path i (toTraceTys ts) = .ok fs → Fields.ofList fs = mappingPos (viewOpts O) i ts
-  | .nil, _, _, fs, _, h => by
+    Spec.mappingTys O path i (toTraceTys ts) = .ok fs → Fields.ofList fs = mappingPos (viewOpts O) i ts
+  | .nil, _, _, fs, h => by
     simp only [toTraceTys, Spec.mappingTys, Except.ok.injEq] at h; subst h; rfl
-  | .cons t r, path, i, fs, hn, h => by
+  | .cons t r, path, i, fs, h => by
     rcases hm' : mappingDT (viewOpts O) t with ⟨dt', nb', md'⟩
-    simp only [noEnumTys, Bool.and_eq_true] at hn
     simp only [toTraceTys, Spec.mappingTys] at h
     obtain ⟨f, hf, h⟩ := bind_ok h
     obtain ⟨rest, hr, h⟩ := bind_ok h
-    have ih1 := mapping_eq O h0 t _ _ false f _ _ _ hn.1 hf hm'
-    have ih2 := mappingTys_eq O h0 r path (i + 1) rest hn.2 hr
+    have ih1 := mapping_eq O h0 t _ _ false f _ _ _ hf hm'
+    have ih2 := mappingTys_eq O h0 r path (i + 1) rest hr
     cases h
     rw [ih1]
     simp [Fields.ofList, mappingPos, hm', ih2, posName]
 theorem mappingFields_eq (O : Options) (h0 : O.overwrites = []) : ∀ (fs : TFields) (path : String) (fl : List Field),
-    noEnumFields fs = true → Spec.mappingFields O path (toTraceFields fs) = .ok fl → Fields.ofList fl = mappingFields (viewOpts O) fs
-  | .nil, _, fl, _, h => by
+    Spec.mappingFields O path (toTraceFields fs) = .ok fl → Fields.ofList fl = mappingFields (viewOpts O) fs
+  | .nil, _, fl, h => by
     simp only [toTraceFields, Spec.mappingFields, Except.ok.injEq] at h; subst h; rfl
-  | .cons n s t r, path, fl, hn, h => by
+  | .cons n s t r, path, fl, h => by
     rcases hm' : mappingDT (viewOpts O) t with ⟨dt', nb', md'⟩
-    simp only [noEnumFields, Bool.and_eq_true] at hn
     simp only [toTraceFields, Spec.mappingFields] at h
     obtain ⟨f, hf, h⟩ := bind_ok h
     obtain ⟨rest, hr, h⟩ := bind_ok h
-    have ih1 := mapping_eq O h0 t _ _ false f _ _ _ hn.1 hf hm'
-    have ih2 := mappingFields_eq O h0 r path rest hn.2 hr
+    have ih1 := mapping_eq O h0 t _ _ false f _ _ _ hf hm'
+    have ih2 := mappingFields_eq O h0 r path rest hr
     cases h
     rw [ih1]
     simp [Fields.ofList, mappingFields, hm', ih2]
+/-- the children of the Union an enum is traced to: one per variant in declaration order, type id = declaration index -/
+theorem mappingVariants_eq (O : Options) (h0 : O.overwrites = []) : ∀ (vars : Variants) (path : String) (i : Nat)
+    (cs : List (Int × Field)),
+    Spec.mappingVariants O path i (toTraceVariants vars) = .ok cs → UFields.ofList cs = mappingVariants (viewOpts O) i vars
+  | .nil, _, _, cs, h => by
+    simp only [toTraceVariants, Spec.mappingVariants, Except.ok.injEq] at h; subst h; rfl
+  | .cons n .unit r, path, i, cs, h => by
+    simp only [toTraceVariants, Spec.mappingVariants, overwritten_none O h0, Spec.nullField] at h
+    obtain ⟨_, h⟩ := guard_ok h
+    obtain ⟨f, hf, h⟩ := bind_ok h
+    obtain ⟨rest, hr, h⟩ := bind_ok h
+    have ih2 := mappingVariants_eq O h0 r path (i + 1) rest hr
+    cases h
+    split at hf
+    · cases hf
+      simp [UFields.ofList, mappingVariants, ih2]
+    · cases hf
+  | .cons n (.newtype t) r, path, i, cs, h => by
+    rcases hm' : mappingDT (viewOpts O) t with ⟨dt', nb', md'⟩
+    simp only [toTraceVariants, Spec.mappingVariants] at h
+    obtain ⟨_, h⟩ := guard_ok h
+    obtain ⟨f, hf, h⟩ := bind_ok h
+    obtain ⟨rest, hr, h⟩ := bind_ok h
+    have ih1 := mapping_eq O h0 t _ _ false f _ _ _ hf hm'
+    have ih2 := mappingVariants_eq O h0 r path (i + 1) rest hr
+    cases h
+    rw [ih1]
+    simp [UFields.ofList, mappingVariants, hm', ih2]
+  | .cons n (.tuple ts) r, path, i, cs, h => by
+    simp only [toTraceVariants, Spec.mappingVariants, overwritten_none O h0] at h
+    obtain ⟨_, h⟩ := guard_ok h
+    obtain ⟨f, hf, h⟩ := bind_ok h
+    obtain ⟨rest, hr, h⟩ := bind_ok h
+    obtain ⟨fs, hfs, hf⟩ := bind_ok hf
+    have ih1 := mappingTys_eq O h0 ts _ 0 fs hfs
+    have ih2 := mappingVariants_eq O h0 r path (i + 1) rest hr
+    cases h; cases hf
+    simp [UFields.ofList, mappingVariants, ih1, ih2, Spec.tupleMeta, TUPLE_MD]
+  | .cons n (.struct fields) r, path, i, cs, h => by
+    simp only [toTraceVariants, Spec.mappingVariants, overwritten_none O h0] at h
+    obtain ⟨_, h⟩ := guard_ok h
+    obtain ⟨f, hf, h⟩ := bind_ok h
+    obtain ⟨rest, hr, h⟩ := bind_ok h
+    obtain ⟨fs, hfs, hf⟩ := bind_ok hf
+    have ih1 := mappingFields_eq O h0 fields _ fs hfs
+    have ih2 := mappingVariants_eq O h0 r path (i + 1) rest hr
+    cases h; cases hf
+    simp [UFields.ofList, mappingVariants, ih1, ih2]
 end
 
 /-- **the documented result of `from_type` is the documented mapping of C04**: whenever `Spec.fromTypeSpec` succeeds
-(no overwrites; any budget and any setting of the other options) on an enum-free type, its fields are `mappingRoot` -/
-theorem fromTypeSpec_eq (O : Options) (h0 : O.overwrites = []) (t : Ty) (hn : noEnum t = true) (fields : List Field)
+(no overwrites; any budget and any setting of the other options) on ANY type (enums included), its fields are
+`mappingRoot` -/
+theorem fromTypeSpec_eq (O : Options) (h0 : O.overwrites = []) (t : Ty) (fields : List Field)
     (h : Spec.fromTypeSpec O (toTraceTy t) = .ok fields) : mappingRoot (viewOpts O) t = some fields := by
   unfold Spec.fromTypeSpec at h
   split at h
@@ -169,7 +266,7 @@ theorem fromTypeSpec_eq (O : Options) (h0 : O.overwrites = []) (t : Ty) (hn : no
       · cases h
       · obtain ⟨root, hr, h⟩ := bind_ok h
         rcases hm : mappingDT (viewOpts O) t with ⟨dt, nb, md⟩
-        have ih := mapping_eq O h0 t _ _ false root _ _ _ hn hr hm
+        have ih := mapping_eq O h0 t _ _ false root _ _ _ hr hm
         subst ih
         simp only [Field.nullable, Bool.false_or, Field.dataType] at h
         split at h
